@@ -128,7 +128,7 @@ def run(c, focus="C01"):
                 c.count("slab_op_" + t[0])
     long_cases = [x for x in cases if is_long(x[1])]
     short_cases = [x for x in cases if not is_long(x[1])]
-    impl = vlib.run_cases(har, short_cases, timeout=600)       # <= 600: the harness's 30 s per-case CPU watchdog is armed
+    impl = vlib.run_cases(har, short_cases, timeout=1500, env={"VH_CASE_CPU_SECONDS": "30"})       # <= 600: the harness's 30 s per-case CPU watchdog is armed
     if long_cases:
         fast = build_fast(c)
         if fast:
